@@ -22,9 +22,17 @@ func genBulkBody(r *rand.Rand, n int, prefix string, withStoreFault bool) (strin
 	var sb strings.Builder
 	var acts []BulkAction
 	idxs := []string{"bka", "bkb", "bkc"}[:1+r.IntN(3)]
+	// in one request out of four the document ids need a JSON escape (written `p\/12`, meaning p/12): valid
+	// documents whose short escaped strings go through the parser's un-escaping path, several per request
+	escaped := !withStoreFault && r.IntN(4) == 0
 	for i := 0; i < n; i++ {
 		ix := idxs[r.IntN(len(idxs))]
 		vid := fmt.Sprintf("%s%d", prefix, i)
+		if escaped {
+			vid = fmt.Sprintf("%s/%d", prefix, i)
+		}
+		realVid := vid
+		vid = strings.ReplaceAll(vid, "/", `\/`) // the JSON spelling; BulkAction carries the real id
 		verb := []string{"index", "create"}[r.IntN(2)]
 		action := fmt.Sprintf(`{"%s":{"_index":"%s"}}`, verb, ix)
 		doc := fmt.Sprintf(`{"vid":"%s","timestamp":%d,"n":%d,"msg":"m %d"}`, vid, simEpochMs+int64(r.IntN(3_600_000)), i, r.IntN(100))
@@ -37,17 +45,17 @@ func genBulkBody(r *rand.Rand, n int, prefix string, withStoreFault bool) (strin
 		switch {
 		case x < 62:
 			sb.WriteString(action + "\n" + doc + "\n")
-			acts = append(acts, BulkAction{Kind: "ok", Index: ix, VID: vid, Expect: "created"})
+			acts = append(acts, BulkAction{Kind: "ok", Index: ix, VID: realVid, Expect: "created"})
 		case x < 72:
 			sb.WriteString(action + "\n" + `{"vid":"` + vid + `","broken": tru` + "\n")
-			acts = append(acts, BulkAction{Kind: "bad-json-doc", Index: ix, VID: vid, Expect: "failed"})
+			acts = append(acts, BulkAction{Kind: "bad-json-doc", Index: ix, VID: realVid, Expect: "failed"})
 		case x < 78:
 			big := fmt.Sprintf(`{"vid":"%s","timestamp":%d,"pad":"%s"}`, vid, simEpochMs, strings.Repeat("x", 64_000+r.IntN(3000)))
 			sb.WriteString(action + "\n" + big + "\n")
-			acts = append(acts, BulkAction{Kind: "oversize", Index: ix, VID: vid, Expect: "failed"})
+			acts = append(acts, BulkAction{Kind: "oversize", Index: ix, VID: realVid, Expect: "failed"})
 		case x < 84:
 			sb.WriteString(fmt.Sprintf(`{"update":{"_index":"%s","_id":"1"}}`, ix) + "\n" + `{"doc":{"vid":"` + vid + `"}}` + "\n")
-			acts = append(acts, BulkAction{Kind: "update", Index: ix, VID: vid, Expect: "failed"})
+			acts = append(acts, BulkAction{Kind: "update", Index: ix, VID: realVid, Expect: "failed"})
 		case x < 90:
 			sb.WriteString(fmt.Sprintf(`{"delete":{"_index":"%s","_id":"1"}}`, ix) + "\n")
 			acts = append(acts, BulkAction{Kind: "delete", Index: ix, Expect: "failed"})
@@ -56,7 +64,7 @@ func genBulkBody(r *rand.Rand, n int, prefix string, withStoreFault bool) (strin
 			acts = append(acts, BulkAction{Kind: "unknown", Index: ix, Expect: "failed"})
 		default:
 			sb.WriteString(action + "\n" + doc + "\n")
-			acts = append(acts, BulkAction{Kind: "ok", Index: ix, VID: vid, Expect: "created"})
+			acts = append(acts, BulkAction{Kind: "ok", Index: ix, VID: realVid, Expect: "created"})
 		}
 	}
 	body := sb.String()
